@@ -464,22 +464,51 @@ func runRedef(c *Ctx) {
 		hasOpts, hasNamed, hasTyped, private := false, false, false, false
 		var walk func(v ssa.Value, d int)
 		seen := map[ssa.Value]bool{}
+		bindings := map[*ssa.Parameter]ssa.Value{} // parameters of list-building helpers → arguments of the call being expanded
 		walk = func(v ssa.Value, d int) {
-			if v == nil || seen[v] || d > 12 {
+			if v == nil || seen[v] || d > 14 {
 				return
 			}
 			seen[v] = true
 			switch x := v.(type) {
+			case *ssa.Parameter:
+				if a, ok := bindings[x]; ok {
+					walk(a, d+1)
+				}
+			case *ssa.Slice:
+				walk(x.X, d+1)
 			case *ssa.Phi:
 				for _, e := range x.Edges {
 					walk(e, d+1)
 				}
 			case *ssa.Call:
+				// a private helper that builds (part of) the argument list: its returned lists, parameters bound to this call
+				if h := x.Common().StaticCallee(); h != nil && p.PrivateHelper(h) && h.Signature.Results().Len() == 1 && core.TypeStr(h.Signature.Results().At(0).Type()) == "[]Arg" {
+					for i, prm := range h.Params {
+						if i < len(x.Common().Args) {
+							bindings[prm] = x.Common().Args[i]
+						}
+					}
+					for _, r := range core.Returns(h) {
+						walk(r.Results[0], d+1)
+					}
+					return
+				}
 				if core.CalleeName(x.Common()) == "builtin.append" {
 					walk(x.Common().Args[0], d+1)
 					// append(nil-or-fresh, opts...) : a private copy of the captured options
 					if len(x.Common().Args) == 2 {
 						src := x.Common().Args[1]
+						for i := 0; i < 3; i++ {
+							if prm, ok := src.(*ssa.Parameter); ok {
+								if a, ok := bindings[prm]; ok {
+									src = a
+									continue
+								}
+							}
+							break
+						}
+						walk(src, d+1)
 						isOpts := capturedIs(src, 1)
 						if isOpts && (core.IsNilConst(x.Common().Args[0]) || p.FreshIn(x.Common().Args[0])) {
 							hasOpts, private = true, true
@@ -514,10 +543,10 @@ func runRedef(c *Ctx) {
 			"each invocation assembles its arguments in a slice of its own (the captured option slice is only copied from)", fmt.Sprintf("fresh-slice=%v", private))
 		// declared inputs are read from the function's own argument struct by field index
 		fromArg := false
-		core.Instrs(body, func(in ssa.Instruction) {
+		p.RegionInstrs(body, func(in ssa.Instruction) {
 			if cl, ok := in.(*ssa.Call); ok && core.CalleeName(cl.Common()) == "(reflect.Value).Field" {
 				if fr, ok := core.AsFieldLoad(cl.Common().Args[1]); ok && fr.Field == "index" {
-					if ld, ok := cl.Common().Args[0].(*ssa.UnOp); ok {
+					if ld, ok := p.Bind(cl.Common().Args[0]).(*ssa.UnOp); ok {
 						if ia, ok := ld.X.(*ssa.IndexAddr); ok && ia.X == ssa.Value(body.Params[0]) {
 							fromArg = true
 						}
